@@ -52,20 +52,42 @@ def secCore (seconds : ℝ) : ℝ :=
   let minutes : Int := dm.2
   (ofInt degrees + ofInt minutes / 60.0 + seconds / 3600.0)
 
-theorem a_of_sec_eq (s : ℝ) : a_of_sec s = (if plt s 0.0 then -1.0 else 1.0) * secCore |s| := rfl
+theorem a_of_sec_eq (s : ℝ) : a_of_sec s = a_reduce ((if plt s 0.0 then -1.0 else 1.0) * secCore |s|) := rfl
+
+theorem a_reduce_zero : a_reduce 0 = 0 := a_reduce_of_lt (by norm_num)
+
+/-- `reduce_deg` is odd. -/
+theorem a_reduce_neg (d : ℝ) : a_reduce (-d) = -a_reduce d := by
+  by_cases h : |d| < 360
+  · rw [a_reduce_of_lt h, a_reduce_of_lt (by rwa [abs_neg])]
+  · have h360 : (360 : ℝ) ≤ |d| := not_lt.mp h
+    have hge : (360.0 : ℝ) ≤ |d| := by norm_num; exact h360
+    have hd0 : d ≠ 0 := by intro h0; rw [h0, abs_zero] at h360; norm_num at h360
+    unfold a_reduce ple pabs
+    simp only [abs_neg, hge, decide_true, if_true]
+    rcases lt_or_gt_of_ne hd0 with hn | hp
+    · have a1 : ¬ ((0.0 : ℝ) ≤ d) := by norm_num; exact hn
+      have a2 : (0.0 : ℝ) ≤ -d := by norm_num; exact hn.le
+      simp only [a1, a2, decide_true, decide_false, if_true, Bool.false_eq_true, if_false]
+      norm_num
+    · have a1 : (0.0 : ℝ) ≤ d := by norm_num; exact hp.le
+      have a2 : ¬ ((0.0 : ℝ) ≤ -d) := by norm_num; exact hp
+      simp only [a1, a2, decide_true, decide_false, if_true, Bool.false_eq_true, if_false]
+      norm_num
 
 theorem secCore_zero : secCore 0 = 0 := by
   unfold secCore ple ptrunc pmod imod ofInt
   norm_num
 
 theorem a_of_sec_zero : a_of_sec 0 = 0 := by
-  rw [a_of_sec_eq, abs_zero, secCore_zero, mul_zero]
+  rw [a_of_sec_eq, abs_zero, secCore_zero, mul_zero, a_reduce_zero]
 
 /-- `Angle(0, 0, -s) = -Angle(0, 0, s)`. -/
 theorem a_of_sec_neg (s : ℝ) : a_of_sec (-s) = -a_of_sec s := by
   by_cases h0 : s = 0
   · subst h0; simp [a_of_sec_zero]
-  · rw [a_of_sec_eq, a_of_sec_eq, abs_neg]
+  · rw [a_of_sec_eq, a_of_sec_eq, abs_neg, ← a_reduce_neg]
+    congr 1
     rcases lt_or_gt_of_ne h0 with h | h
     · have h1 : plt (-s) 0.0 = false := by unfold plt; simp; linarith
       have h2 : plt s 0.0 = true := by unfold plt; simp; linarith
@@ -383,12 +405,14 @@ theorem secCore_spec (x : ℝ) : ∃ q : ℤ, secCore x = x / 3600 - 360 * q := 
 theorem a_of_sec_spec (s : ℝ) : ∃ k : ℤ, a_of_sec s = s / 3600 + 360 * k := by
   obtain ⟨q, hq⟩ := secCore_spec |s|
   rw [a_of_sec_eq, hq]
+  obtain ⟨m, hm⟩ := a_reduce_spec ((if plt s 0.0 = true then -1.0 else 1.0) * (|s| / 3600 - 360 * ↑q))
+  rw [hm]
   by_cases h : s < 0
   · have h1 : plt s 0.0 = true := by unfold plt; simp; linarith
-    refine ⟨q, ?_⟩
-    rw [h1, abs_of_neg h]; norm_num; ring
+    refine ⟨q + m, ?_⟩
+    rw [h1, abs_of_neg h]; push_cast; norm_num; ring
   · have h1 : plt s 0.0 = false := by unfold plt; simp; linarith
-    refine ⟨-q, ?_⟩
+    refine ⟨-q + m, ?_⟩
     rw [h1, abs_of_nonneg (not_lt.mp h)]; push_cast; norm_num; ring
 
 theorem rotZ_periodic (a : ℝ) (k : ℤ) (v : V3) : rotZ (a + k * (2 * π)) v = rotZ a v := by
